@@ -203,58 +203,42 @@ def norm_lines(txt):
 
 
 def check_tables(ctx, db, rule='R-CLONE.table'):
-    members = {m: [] for m in METHODS}
+    """The four tables: semantic obligations per method (sa/hashtable.py: events on the CFG, affine loop summaries, linear
+    forms through temporaries), decided once per source definition. No text of any method is compared with a stored
+    skeleton: a refactoring that keeps the events keeps the verdict."""
+    from .. import hashtable
     n_funcs = 0
     for tname, spec in TABLES.items():
-        for m in METHODS:
-            fs = method_of(db, tname, spec, m)
+        for mname in METHODS:
+            fs = method_of(db, tname, spec, mname)
             if not fs:
-                if m == 'has' and tname == 'StyleMap':
+                if mname == 'has' and tname == 'StyleMap':
                     continue  # StyleMap has no has_key(); its get() is covered by the lookup-guard obligation
-                raise AnalysisBroken('hash table method missing: %s::%s' % (tname, m))
+                raise AnalysisBroken('hash table method missing: %s::%s' % (tname, mname))
             seen = set()
             for f in fs:
                 ctx.touch(f)
                 n_funcs += 1
-                lines = norm_lines(skeleton(f, tname, spec))
-                key = '\n'.join(lines)
-                if key in seen:
+                if (f.file, f.line) in seen or f.body is None:
                     continue
-                seen.add(key)
-                members[m].append(('%s::%s' % (tname if not f.targs else f.rec.replace('gdstk::', ''), f.name), f.loc(), key))
-    for m in METHODS:
-        mem = members[m]
-        if m in REF:
-            ref = '\n'.join(REF[m])
-            mem2 = []
-            for lab, loc, txt in mem:
-                if lab.startswith('TagMap') and m == 'insert':
-                    ls = txt.split('\n')
-                    if ls[:3] == ['if ((p0 == p1))', 'this->del(p0)', 'return']:
-                        ctx.ok(rule, 'table/insert/TagMap-identity-prologue', loc, 'TagMap::set(k, k) deletes the key (identity mapping is the empty slot)')
-                        txt = '\n'.join(ls[3:])
-                    else:
-                        ctx.violation(rule, 'table/insert/TagMap-identity-prologue', loc, 'TagMap::set lost its `key == value -> del(key)` prologue: an identity entry would be stored as an empty slot marker')
-                if txt.endswith('\nelse'):
-                    txt = txt[:-5]  # else-branch that only held payload stores (StyleMap frees the old string)
-                mem2.append((lab, loc, txt))
-            for lab, loc, txt in mem2:
-                d = clone.first_diff(ref, txt)
-                ctx.check(d is None, rule, 'table/%s/%s=reference' % (m, lab), loc, 'skeleton of %s equals the frozen reference (%d lines)' % (lab, len(REF[m])),
-                          None if d is None else '%s: control skeleton differs from the reference %s at line %d: `%s` (reference: `%s`)' % (lab, m, d[0], d[2][:120], d[1][:120]))
-        else:
-            # TagMap::set has a documented prologue (key == value -> del); compare after removing it
-            mem2 = []
-            for lab, loc, txt in mem:
-                if lab.startswith('TagMap') and m == 'insert':
-                    ls = txt.split('\n')
-                    if ls[:3] == ['if ((p0 == p1))', 'this->del(p0)', 'return']:
-                        ctx.ok(rule, 'table/insert/TagMap-identity-prologue', loc, 'TagMap::set(k, k) deletes the key (identity mapping is the empty slot)')
-                        txt = '\n'.join(ls[3:])
-                    else:
-                        ctx.violation(rule, 'table/insert/TagMap-identity-prologue', loc, 'TagMap::set lost its `key == value -> del(key)` prologue: an identity entry would be stored as an empty slot marker')
-                mem2.append((lab, loc, txt))
-            clone.check_family(ctx, rule, 'table/' + m, mem2)
+                seen.add((f.file, f.line))
+                hashtable.CHECKS[mname](ctx, hashtable.M(db, f, tname, spec), rule)
+            if tname == 'TagMap' and mname == 'insert':
+                # TagMap::set(k, k) retracts the rule for k: the identity mapping is the representation of an empty slot
+                f = fs[0]
+                p0, p1 = ('v%d:%s' % (f.params[i_]['d'], f.params[i_]['n']) for i_ in (0, 1))
+                ok = False
+                for iff in f.walk():
+                    if iff.k != 'IfStmt':
+                        continue
+                    c = flow._strip_casts(iff.child('cond'))
+                    if c.k == 'BinaryOperator' and c.op == '==' and {lvalue_key(flow._strip_casts(c.child('lhs'))), lvalue_key(flow._strip_casts(c.child('rhs')))} == {p0, p1}:
+                        th = iff.child('then')
+                        dl = [x for x in th.walk() if x.k == 'CXXMemberCallExpr' and (x.callee or '').endswith('::del') and lvalue_key(flow._strip_casts(x.args[0])) == p0]
+                        gsl = next((x for x in f.walk() if x.k == 'CXXMemberCallExpr' and (x.callee or '').endswith('::get_slot')), None)
+                        ok = bool(dl) and any(x.k == 'ReturnStmt' and x.id > dl[0].id for x in th.walk()) and gsl is not None and iff.id < gsl.id
+                ctx.check(ok, rule, 'table/insert/TagMap-identity-prologue', f.loc(), 'TagMap::set(k, k) deletes the key (identity mapping is the empty slot)',
+                          'TagMap::set lost its `key == value -> del(key); return` prologue: an identity entry would be stored as an empty slot marker / an existing rule for the key survives')
     ctx.require('R-CLONE.table methods', n_funcs, 27)
     # every look-up path (has/get/del) tests count == 0 before get_slot (capacity may be 0: `% capacity`)
     ng = 0
